@@ -75,44 +75,68 @@ def putPath {N : Type} (fields : Dict N) : Path → Option (JValue N) → Dict N
     | some c => dSet f (putIn (k :: ks) ov c) fields
     | none => fields
 
+/-- What the predicate remembers between operations.
+    `ghost`: the currently modified paths (see `Ghost`).
+    `dormant`: for a modified path `p` ("subsumer"), the modifications that were outstanding strictly below `p` when
+    `p` was first modified.  While `p` is modified they are part of `p`'s value; when `p` is restored and its value
+    returns to the one found before its modification — the one that still contains them — they are outstanding
+    again (`restore p` must not make them unrestorable: "a modified attribute restored through the API returns
+    exactly to its original value").  They are forgotten as soon as anything else happens at, below or above them
+    (then the property does not determine whether they come back). -/
+structure Track (N : Type) where
+  ghost : Ghost N := []
+  dormant : List (Path × Ghost N) := []
+
+def dormantOf {N : Type} (p : Path) : List (Path × Ghost N) → Ghost N
+  | [] => []
+  | (q, es) :: r => if p = q then es else dormantOf p r
+
 /-- One observed operation: `prev`/`now` are the attribute trees before/after, `ok` whether the call
-    returned without an exception.  Returns the violated clause (if any) and the new ghost.
+    returned without an exception.  Returns the violated clause (if any) and the new state.
 
     Modify of an unmodified path `p`: remember the value at `p`, as it is and with the still-outstanding
-    modifications strictly below `p` undone (those are subsumed by `p` from now on).
+    modifications strictly below `p` undone (those are subsumed by `p` from now on and become dormant).
     Restore of `p`: if `p` is modified, the value at `p` must be the remembered one; everything at or
-    below `p` stops being tracked (what was recorded below lived inside the value that just went away).
+    below `p` stops being tracked (what was recorded below lived inside the value that just went away) — except
+    that, when the value is back as it was (still holding the modifications subsumed by `p`), those are
+    outstanding again.
     If `p` is not modified, nothing is demanded; modifications below `p` that came back stop being tracked. -/
-def specStepM {N : Type} [DecidableEq N] (g : Ghost N) (prev : Dict N) (op : MOp N) (ok : Bool) (now : Dict N) :
-    Option Clause × Ghost N :=
-  if !ok then (none, g)
+def specStepM {N : Type} [DecidableEq N] (t : Track N) (prev : Dict N) (op : MOp N) (ok : Bool) (now : Dict N) :
+    Option Clause × Track N :=
+  if !ok then (none, t)
   else
+    let g := t.ghost
     match op with
     | .modify p _ =>
+      -- something changes strictly below / above a subsumer: its dormant entries are not known to come back
+      let dorm := t.dormant.filter (fun d => !(strictBelow d.1 p) && !(strictBelow p d.1))
       match gLookup p g with
-      | some _ => (none, g)
+      | some _ => (none, { ghost := g, dormant := dorm })
       | none =>
         let below := g.filter (fun e => strictBelow p e.1)
         let undone := below.reverse.foldl (fun f e => putPath f e.1 e.2.2) prev
-        (none, g.filter (fun e => !strictBelow p e.1) ++ [(p, getPath prev p, getPath undone p)])
+        (none, { ghost := g.filter (fun e => !strictBelow p e.1) ++ [(p, getPath prev p, getPath undone p)],
+                 dormant := if below.isEmpty then dorm else dorm ++ [(p, below)] })
     | .restore p =>
+      let dorm := t.dormant.filter (fun d => !(strictBelow d.1 p) && !(isPrefix p d.1))
       match gLookup p g with
       | some (asWas, undone) =>
+        let back := if getPath now p = asWas then dormantOf p t.dormant else []
         ((if getPath now p = asWas ∨ getPath now p = undone then none else some Clause.restoreIdentity),
-         g.filter (fun e => !isPrefix p e.1))
+         { ghost := g.filter (fun e => !isPrefix p e.1) ++ back, dormant := dorm })
       | none =>
         -- `p` itself is not modified; the property does not say whether the modifications below it are restored
         -- along: those whose recorded value is back stop being tracked, the others stay outstanding
-        (none, g.filter (fun e => !(strictBelow p e.1 &&
-          (decide (getPath now e.1 = e.2.1) || decide (getPath now e.1 = e.2.2)))))
+        (none, { ghost := g.filter (fun e => !(strictBelow p e.1 &&
+          (decide (getPath now e.1 = e.2.1) || decide (getPath now e.1 = e.2.2)))), dormant := dorm })
 
 /-- A whole observed case: initial tree and the steps `(op, ok, tree after)`.  First violated clause. -/
-def specM {N : Type} [DecidableEq N] : Ghost N → Dict N → List (MOp N × Bool × Dict N) → Option Clause
+def specM {N : Type} [DecidableEq N] : Track N → Dict N → List (MOp N × Bool × Dict N) → Option Clause
   | _, _, [] => none
-  | g, prev, (op, ok, now) :: rest =>
-    match specStepM g prev op ok now with
+  | t, prev, (op, ok, now) :: rest =>
+    match specStepM t prev op ok now with
     | (some c, _) => some c
-    | (none, g') => specM g' now rest
+    | (none, t') => specM t' now rest
 
 /-! ## (2) stop / start -/
 
@@ -205,7 +229,10 @@ def specInventory (t : Key) (inv : List (Key × Nat)) : Option Clause :=
 
 /-- `before`/`after` = the object's attributes read one by one through their getters (no attribute mask)
     before the shutdown and after the start-up: every pinned attribute of type `t` is in the record and has the
-    identical value.  (As for `specRestartState`, nothing is demanded beyond the decoder's nesting limit.) -/
+    identical value.  The record is the getter view (Serial.lean): a typed object nested in a value (`CheckResult`, a
+    `PerfdataValue` inside `performance_data`) carries the member `"@object": true`, so an object that comes back as a
+    dictionary with the same members is a different value.  (As for `specRestartState`, nothing is demanded beyond the
+    decoder's nesting limit.) -/
 def specRestartPinned {N : Type} [DecidableEq N] (t : Key) (before after : Dict N) : Option Clause :=
   if Icinga.C20.depth (JValue.obj before) + 1 > Icinga.C20.jsonMaxNestingDepth then none
   else if (pinnedState t).all (fun a => match dGet? a before with
